@@ -87,17 +87,15 @@ def _codes(a):
 
 def _rle(codes):
     """lossless 2-D run-length encoding (Plot.tla RleVals): distinct rows as runs [value, x0, len],
-    vertical runs [pattern (1-based), y0, count]"""
+    vertical runs [pattern (1-based), y0, count]; only distinct rows are run-encoded (513 x 513 images)"""
+    codes = np.ascontiguousarray(np.asarray(codes, dtype=np.int64))
     pats, index, vr = [], {}, []
-    for y, row in enumerate(codes):
-        key = tuple(int(v) for v in row)
+    for y in range(codes.shape[0]):
+        row = codes[y]
+        key = row.tobytes()
         if key not in index:
-            runs, x0 = [], 0
-            for x in range(1, len(key) + 1):
-                if x == len(key) or key[x] != key[x0]:
-                    runs.append([key[x0], x0, x - x0])
-                    x0 = x
-            pats.append(runs)
+            cuts = [0] + [int(i) + 1 for i in np.flatnonzero(row[1:] != row[:-1])] + [len(row)]
+            pats.append([[int(row[a]), a, b - a] for a, b in zip(cuts, cuts[1:])])
             index[key] = len(pats)
         p = index[key]
         if vr and vr[-1][0] == p:
@@ -137,6 +135,12 @@ def _path_input(style, path):
         return [(int(a), int(b)) for a, b in path], {}
     if style == "array":
         return arr, {}
+    if style == "array8":
+        return arr.astype(np.int8), {}
+    if style == "styled_line8":
+        return StyledPath(path=arr.astype(np.int8), fmt="-", color="blue", line_width=1.5, quiver_kwargs=None), {}
+    if style == "styled_quiver8":
+        return StyledPath(path=arr.astype(np.int8), fmt=":", color="green", quiver_kwargs={"width": 0.01}), {}
     if style == "styled_line":
         return StyledPath(path=arr, fmt="-", color="blue", line_width=1.5, quiver_kwargs=None, label="styled"), {}
     if style == "styled_dash":
@@ -325,8 +329,8 @@ def _rand_shortest(rng, conn, s, t):
     return [list(x) for x in p]
 
 
-LINE_STYLES = ["list", "array", "styled_line", "styled_dash", "fmt", "kw"]
-PRED_STYLES = ["list", "array", "styled_quiver", "styled_line", "styled_cmap", "kw"]
+LINE_STYLES = ["list", "array", "styled_line", "styled_dash", "fmt", "kw", "array8", "styled_line8"]
+PRED_STYLES = ["list", "array", "styled_quiver", "styled_line", "styled_cmap", "kw", "array8", "styled_quiver8"]
 
 
 def _rand_path(rng, conn, r, c):
@@ -448,6 +452,57 @@ def scenario_random(seed, k, maxn=8):
 def observe_random(args):
     seed, k = args
     return observe(scenario_random(seed, k))
+
+
+# (grid size n, unit length): ul * (n-1) just below / at / above 127 and 255 (8- and 16-bit products), and
+# unit lengths far beyond the default 14; the images (up to 641 x 641) are judged through the run-length encoding
+LARGE_UL = [(8, 18), (8, 19), (8, 25), (8, 36), (8, 37), (8, 40), (8, 64), (7, 21), (7, 22), (6, 25), (6, 26), (6, 51), (6, 52), (5, 32), (5, 64), (5, 128),
+            (4, 42), (4, 43), (4, 64), (4, 85), (4, 86), (3, 63), (3, 64), (3, 127), (3, 128), (2, 127), (2, 128), (2, 255), (2, 256)]
+
+
+def scenario_large_ul(seed, k):
+    """paths that reach the far rows / columns of the grid under a large unit length, in every input form"""
+    rng = np.random.default_rng([seed, 23, k])
+    n, ul = LARGE_UL[k % len(LARGE_UL)]
+    form = (k // len(LARGE_UL)) % 3
+    r, c = (n, n) if form == 0 else ((n, int(rng.integers(2, n + 1))) if form == 1 else (int(rng.integers(2, n + 1)), n))
+    gen = ["dfs", "wilson"][k % 2]
+    try:
+        conn = np.array(_gen_conn(rng, gen, r, c), dtype=bool)
+        assert conn.shape == (2, r, c)
+    except Exception:  # noqa: BLE001
+        gen += "!"
+        conn = mz.rand_conn(rng, r, c, 0.7)
+    conn[0, -1, :] = False
+    conn[1, :, -1] = False
+    corners = [(0, 0), (r - 1, c - 1), (0, c - 1), (r - 1, 0)]
+    a = corners[int(rng.integers(4))]
+    reach = mz.bfs(conn, a)
+    b = max(reach, key=lambda x: (abs(x[0] - a[0]) + abs(x[1] - a[1]), x))  # the reachable cell farthest away on the grid
+    kind = KINDS[(k // 2) % 3]
+    kw = {}
+    if kind == "TargetedLatticeMaze":
+        kw = dict(start=a, end=b)
+    elif kind == "SolvedMaze":
+        kw = dict(sol=_rand_shortest(rng, conn, a, b))
+    far = [[r - 1, c - 1], [0, c - 1], [r - 1, 0], [r - 1, int(rng.integers(0, c))], [int(rng.integers(0, r)), c - 1]]
+    ops = []
+    if kind == "LatticeMaze" or rng.random() < 0.3:
+        tpath = _rand_shortest(rng, conn, b, a) if rng.random() < 0.6 else [far[int(i)] for i in rng.permutation(5)[:3]]
+        ops.append(["true", LINE_STYLES[int(rng.integers(len(LINE_STYLES)))], tpath])
+    for _ in range(int(rng.integers(1, 3))):
+        u = rng.random()
+        ppath = [far[int(i)] for i in rng.permutation(5)[: int(rng.integers(1, 5))]] if u < 0.5 else (_rand_walk(rng, conn, b, 3 * n) if u < 0.8 else _rand_shortest(rng, conn, a, b))
+        ops.append(["pred", PRED_STYLES[int(rng.integers(len(PRED_STYLES)))], ppath])
+    if rng.random() < 0.3:
+        ops.append(["mark", "", [far[0]]])
+    return _scn(kind, conn, ul, nv=_nv_random(rng, r, c) if k % 4 == 3 else None, ops=ops, src=f"lul:{seed}:{k}:{gen}:{r}x{c}:ul{ul}",
+                plain=bool(rng.random() < 0.3), hide_cbar=True, **kw)
+
+
+def observe_large_ul(args):
+    seed, k = args
+    return observe(scenario_large_ul(seed, k))
 
 
 # ------------------------------------------------------------------ canaries (hand-made records)
@@ -694,8 +749,9 @@ def main(chk: lib.Check) -> int:
         "SolvedMaze for every shortest path of every pair} x ul in {3,4} x {plain, cell values}; the same for 2x3/3x2 graphs (quick: seeded sample of graphs; "
         "two of the four (ul, values) combinations per maze, rotating); seeded random mazes 2..8 x 2..8 (1/3 square, 1/3 forced oblong) from gen_dfs, gen_wilson, "
         "gen_dfs_percolation, gen_percolation x three kinds x ul in {3,4,5,7,14} x {plain, random distinct quarter values: mixed/all positive/all negative} "
+        "plus a large-unit-length family (ul 18..256 with ul*(n-1) just below / at / above 127 and 255 on grids 2..8, square and oblong, paths through the far corners) "
         "with random true / predicted paths (shortest paths, simple walks, arbitrary cell sequences with repeats and jumps, single cells; list / array / StyledPath "
-        "line / quiver / cmap inputs, add_multiple_paths, replaced true path), mark_coords, plain / own axes / hidden colorbar; "
+        "line / quiver / cmap / int8-array inputs, add_multiple_paths, replaced true path), mark_coords, plain / own axes / hidden colorbar; "
         "non-trivial = figure produced for a graph with at least one passage and one wall"
     )
     chk.notes["records"] = {}
@@ -744,6 +800,12 @@ def main(chk: lib.Check) -> int:
                 chk.sample({k: big[k] for k in ("maze", "ul", "hasnv", "tpset", "tp", "preds", "marks", "vruns", "ext", "lines", "quiv")})
         _judge_batch(chk, guard, recs, f"rnd{b0}", "seeded random mazes 2..8 x 2..8, ul in {3,4,5,7,14}: run-length encoded image judged block by block / strip by strip, paths, markers, ASCII export")
     chk.notes["random_figures"] = nrand
+    # ---- (C) large unit lengths (far beyond the default 14), paths reaching the far rows / columns
+    nlarge = 1740 if thorough else 174
+    recs = lib.pmap(observe_large_ul, [(chk.seed, k) for k in range(nlarge)], chunksize=2)
+    _judge_batch(chk, guard, recs, "lul", "unit lengths 18..256 with ul*(n-1) around 127 / 255 on grids 2..8: image through the run-length encoding, paths given as list / int64 / int8 arrays / StyledPath reaching the last row and column")
+    chk.notes["large_unit_length_figures"] = nlarge
+    chk.notes["large_unit_lengths"] = sorted({u for _n, u in LARGE_UL})
     chk.notes["rejected_record_groups"] = {"|".join(map(str, k)): v for k, v in sorted(guard.seen.items(), key=str)}
     chk.notes["layer_M_findings"] = (
         "M:ascii_export_flags: MazePlot(LatticeMaze).to_ascii(show_endpoints=False, show_solution=False) raises ValueError "
@@ -755,7 +817,7 @@ def main(chk: lib.Check) -> int:
         "matplotlib's Agg backend and its artist objects are a faithful observer: what ax.images[0].get_array()/get_extent(), Line2D.get_xydata() and Quiver.X/Y/U/V hold is what is drawn",
         "value codes: a pixel v is logged as round(100 v) only when round(100 v)/100 == v exactly (else INEXACT); the run-length encoder is harness code, cross-checked against the raw rows on every image of <= 1300 pixels and every 8th larger one (X:rle_disagrees_with_raw)",
         "input generation (all shortest paths, random walks) is harness code; the true path of a targeted maze is re-decided in TLA+ (shortest path)",
-        "graphs beyond 2x2 (quick) / 2x3, 3x2 (thorough) are sampled, not exhaustive; unit lengths beyond {3,4,5,7,14} not exercised",
+        "graphs beyond 2x2 (quick) / 2x3, 3x2 (thorough) are sampled, not exhaustive; unit lengths other than {3,4,5,7,14} and the listed large ones (18..256) not exercised",
     ]
     return chk.finish(
         "Plot.tla checked exhaustively on tiny shapes (geometry partition / strip bijection / coordinate map / painting loop = statement = closed form; three broken variants rejected); "
